@@ -60,6 +60,11 @@ def run(ctx, rep):
                f'({show(inner, maxd=2)[:60]})')
     else:
         rep.ob('R16.1', 'full-circle-image', None, f'image [{lo}, {hi}] not decided for {show(inner, maxd=2)[:80]}')
+    # the image is (-180, 180]: atan2 itself has it, its negation has [-180, 180) (due south on the Kaaba's meridian becomes -180)
+    negs = [x for x in subterms(deg) if x and x[0] == 'un' and x[1] == 'Neg' and
+            any(y and y[0] == 'app' and y[1] == 'atan2' for y in subterms(x[2]))]
+    rep.ob('R16.1', 'image-half-open-side', not negs, 'the bearing is atan2 itself: image (-180, 180]' if not negs else
+           'the bearing is a negated atan2: its image is [-180, 180) - the bearing of exactly 180 degrees is reported as -180')
     # R16.2 elevation
     elev = [x for x in subterms(deg) if x and x[0] == 'field' and x[2] == 'elevation']
     rep.ob('R16.2', 'no-elevation', not elev, 'elevation does not occur in the bearing term' if not elev else 'the bearing depends on elevation')
